@@ -10,6 +10,8 @@ import (
 	"fmt"
 
 	"github.com/ElrondNetwork/elrond-go/core"
+	"github.com/ElrondNetwork/elrond-go/data/batch"
+	"github.com/ElrondNetwork/elrond-go/marshal"
 	"github.com/ElrondNetwork/elrond-go/process"
 	"github.com/ElrondNetwork/elrond-go/process/interceptors"
 	"github.com/ElrondNetwork/elrond-go/process/mock"
@@ -39,30 +41,34 @@ func (p *procStub) Save(d process.InterceptedData, _ core.PeerID, _ string) erro
 func (p *procStub) RegisterHandler(func(topic string, hash []byte, data interface{})) {}
 func (p *procStub) IsInterfaceNil() bool                                              { return p == nil }
 
+func stubFactory() process.InterceptedDataFactory {
+	return &mock.InterceptedDataFactoryStub{CreateCalled: func(buff []byte) (process.InterceptedData, error) {
+		k := buff[0]
+		if k == 'c' {
+			return nil, errors.New("cannot create")
+		}
+		return &testscommon.InterceptedDataStub{
+			CheckValidityCalled: func() error {
+				switch k {
+				case 'v':
+					return errors.New("invalid")
+				case 'w':
+					return process.ErrInvalidTransactionVersion
+				}
+				return nil
+			},
+			IsForCurrentShardCalled: func() bool { return k != 'o' },
+			HashCalled:              func() []byte { return []byte{k} },
+		}, nil
+	}}
+}
+
 func newInterceptor(o *obs, work func()) (*interceptors.SingleDataInterceptor, error) {
 	return interceptors.NewSingleDataInterceptor(interceptors.ArgSingleDataInterceptor{
-		Topic: "topic",
-		DataFactory: &mock.InterceptedDataFactoryStub{CreateCalled: func(buff []byte) (process.InterceptedData, error) {
-			k := buff[0]
-			if k == 'c' {
-				return nil, errors.New("cannot create")
-			}
-			return &testscommon.InterceptedDataStub{
-				CheckValidityCalled: func() error {
-					switch k {
-					case 'v':
-						return errors.New("invalid")
-					case 'w':
-						return process.ErrInvalidTransactionVersion
-					}
-					return nil
-				},
-				IsForCurrentShardCalled: func() bool { return k != 'o' },
-				HashCalled:              func() []byte { return []byte{k} },
-			}, nil
-		}},
-		Processor: &procStub{work: work},
-		Throttler: o,
+		Topic:       "topic",
+		DataFactory: stubFactory(),
+		Processor:   &procStub{work: work},
+		Throttler:   o,
 		AntifloodHandler: &mock.P2PAntifloodHandlerStub{
 			IsOriginatorEligibleForTopicCalled: func(pid core.PeerID, topic string) error {
 				if pid == "e" {
@@ -75,6 +81,48 @@ func newInterceptor(o *obs, work func()) (*interceptors.SingleDataInterceptor, e
 		PreferredPeersHolder: &p2pmocks.PeersHolderStub{},
 		CurrentPeerId:        "self",
 	})
+}
+
+// multi-data interceptor: a message is a batch of items; message kinds: "u" unmarshalable,
+// "z" empty batch, otherwise one item per character (item kinds as above)
+var multiMsgs = []string{"u", "z", "k", "c", "v", "w", "e", "o", "x", "s", "kk", "kw", "wk", "kc"}
+
+func newMultiInterceptor(o *obs, work func()) (*interceptors.MultiDataInterceptor, error) {
+	return interceptors.NewMultiDataInterceptor(interceptors.ArgMultiDataInterceptor{
+		Topic:       "topic",
+		Marshalizer: &marshal.GogoProtoMarshalizer{},
+		DataFactory: stubFactory(),
+		Processor:   &procStub{work: work},
+		Throttler:   o,
+		AntifloodHandler: &mock.P2PAntifloodHandlerStub{
+			IsOriginatorEligibleForTopicCalled: func(pid core.PeerID, topic string) error {
+				if pid == "e" {
+					return errors.New("not eligible")
+				}
+				return nil
+			},
+		},
+		WhiteListRequest:     &testscommon.WhiteListHandlerStub{},
+		PreferredPeersHolder: &p2pmocks.PeersHolderStub{},
+		CurrentPeerId:        "self",
+	})
+}
+
+func multiMsg(kind string) *mock.P2PMessageMock {
+	var data []byte
+	switch kind {
+	case "u":
+		data = []byte{0xff, 0xff, 0xff}
+	case "z":
+		data, _ = (&marshal.GogoProtoMarshalizer{}).Marshal(&batch.Batch{})
+	default:
+		b := &batch.Batch{}
+		for i := 0; i < len(kind); i++ {
+			b.Data = append(b.Data, []byte{kind[i]})
+		}
+		data, _ = (&marshal.GogoProtoMarshalizer{}).Marshal(b)
+	}
+	return &mock.P2PMessageMock{DataField: data, PeerField: core.PeerID(kind[:1]), FromField: []byte("from"), SignatureField: []byte("sig"), SeqNoField: []byte{1}}
 }
 
 func interceptorMsg(kind byte) *mock.P2PMessageMock {
